@@ -492,6 +492,192 @@ func generate(r *hlib.Rng, n int, tier string) []*Spec {
 		}
 	}
 
+	// ---- E3. the pool's senders cache (tx hash -> "signature verified") and block processing ----
+	// Real TxPool histories over a fixed UTXO set: entries 0,1 owned by V, 2 by A (the attacker), 3 by W;
+	// index 4 names an outpoint that does not exist. Every class of refused transaction (foreign signature,
+	// signature over other contents / chain, non-owning key, overspend, wrong chain, missing entry, inactive
+	// output) goes through every way a transaction reaches the pool (remote, local, batch, re-add of a refused /
+	// known one, reorg re-injection with and without a previous add) and is then "included in a block".
+	{
+		V, W, A := qk[0], qk[1], att[0]
+		owners := [][]byte{V, V, A, W}
+		dens := []uint8{6, 6, 6, 6}
+		o1 := func() []QiOut { return []QiOut{{5, freshQi()}, {4, freshQi()}} }
+		o2 := func() []QiOut { return []QiOut{{6, freshQi()}, {5, freshQi()}} }
+		inactive := freshQi()
+		inactive[0] = 0x01
+		catalog := func() []PTx {
+			return []PTx{
+				{Label: "owner-signed-1in", Ins: []int{0}, Carry: [][]byte{V}, Signers: [][]byte{V}, Outs: o1(), TxChain: 9000, SigChain: 9000},
+				{Label: "owner-signed-2in", Ins: []int{0, 1}, Carry: [][]byte{V, V}, Signers: [][]byte{V, V}, Outs: o2(), TxChain: 9000, SigChain: 9000},
+				{Label: "two-owners-signed", Ins: []int{0, 2}, Carry: [][]byte{V, A}, Signers: [][]byte{V, A}, Outs: o2(), TxChain: 9000, SigChain: 9000},
+				{Label: "other-owner-signed", Ins: []int{3}, Carry: [][]byte{W}, Signers: [][]byte{W}, Outs: o1(), TxChain: 9000, SigChain: 9000},
+				{Label: "owner-key-foreign-signature", Ins: []int{0}, Carry: [][]byte{V}, Signers: [][]byte{A}, Outs: o1(), TxChain: 9000, SigChain: 9000},
+				{Label: "owner-keys-foreign-signature-2in", Ins: []int{0, 1}, Carry: [][]byte{V, V}, Signers: [][]byte{A, A}, Outs: o2(), TxChain: 9000, SigChain: 9000},
+				{Label: "one-owner-replaced-by-cosigner", Ins: []int{0, 2}, Carry: [][]byte{V, A}, Signers: [][]byte{A, A}, Outs: o2(), TxChain: 9000, SigChain: 9000},
+				{Label: "one-owner-did-not-sign", Ins: []int{0, 2}, Carry: [][]byte{V, A}, Signers: [][]byte{A}, Outs: o2(), TxChain: 9000, SigChain: 9000},
+				{Label: "signature-over-other-outputs", Ins: []int{0}, Carry: [][]byte{V}, Signers: [][]byte{V}, Outs: o1(), AltOuts: o1(), TxChain: 9000, SigChain: 9000},
+				{Label: "signature-for-another-chain", Ins: []int{0}, Carry: [][]byte{V}, Signers: [][]byte{V}, Outs: o1(), TxChain: 9000, SigChain: 1},
+				{Label: "foreign-signature-and-overspend", Ins: []int{0}, Carry: [][]byte{V}, Signers: [][]byte{A}, Outs: []QiOut{{7, freshQi()}}, TxChain: 9000, SigChain: 9000, RestBad: "overspend"},
+				{Label: "non-owning-key", Ins: []int{0}, Carry: [][]byte{A}, Signers: [][]byte{A}, Outs: o1(), TxChain: 9000, SigChain: 9000},
+				{Label: "owner-signed-overspend", Ins: []int{0}, Carry: [][]byte{V}, Signers: [][]byte{V}, Outs: []QiOut{{7, freshQi()}}, TxChain: 9000, SigChain: 9000, RestBad: "overspend"},
+				{Label: "transaction-of-another-chain", Ins: []int{0}, Carry: [][]byte{V}, Signers: [][]byte{V}, Outs: o1(), TxChain: 1, SigChain: 1},
+				{Label: "missing-entry", Ins: []int{4}, Carry: [][]byte{A}, Signers: [][]byte{A}, Outs: o1(), TxChain: 9000, SigChain: 9000},
+				{Label: "owner-signed-inactive-output", Ins: []int{0}, Carry: [][]byte{V}, Signers: [][]byte{V}, Outs: []QiOut{{5, inactive}}, TxChain: 9000, SigChain: 9000, RestBad: "inactive"},
+			}
+		}
+		const nValid = 4
+		mkPool := func(note string, txs []PTx, ops []POp) {
+			push(&Spec{Kind: "qipool", Note: note, Pool: &PoolSpec{Owners: owners, Dens: dens, Txs: txs, Ops: ops}})
+		}
+		op := func(k string, t ...int) POp { return POp{K: k, T: t} }
+		cat := catalog()
+		for f := nValid; f < len(cat); f++ {
+			// universe: 0 = an owner-signed spend of the same entry, 1 = the refused class, 2 = another owner's spend
+			u := func() []PTx { c := catalog(); return []PTx{c[0], c[f], c[3]} }
+			noProc := cat[f].RestBad == "inactive"
+			hs := [][]POp{
+				{op("proc", 1), op("add", 1), op("proc", 1)},
+				{op("add", 1), op("add", 1), op("proc", 1), op("add", 0), op("proc", 1), op("proc", 0)},
+				{op("reorg", 1), op("proc", 1)},
+				{op("add", 1), op("reorg", 1), op("proc", 1), op("add", 1), op("proc", 1)},
+				{op("add", 0, 1, 2), op("proc", 1), op("proc", 0), op("reorg", 0, 1), op("proc", 1), op("proc", 0)},
+				{op("addlocal", 1), op("proc", 1), op("remove", 1), op("proc", 1)},
+			}
+			for hi, h := range hs {
+				var ops []POp
+				for _, o := range h {
+					if noProc && o.K == "proc" && o.T[0] == 1 {
+						continue
+					}
+					ops = append(ops, o)
+				}
+				mkPool(fmt.Sprintf("%s/h%d", cat[f].Label, hi), u(), ops)
+			}
+		}
+		for g := 0; g < nValid; g++ {
+			c := catalog()
+			mkPool("valid/"+c[g].Label, []PTx{c[g], c[4]},
+				[]POp{op("proc", 0), op("add", 0), op("proc", 0), op("add", 0), op("remove", 0), op("add", 0), op("reorg", 0), op("proc", 0), op("reorg", 0, 1), op("proc", 0), op("proc", 1)})
+		}
+		for i := 0; i < 14+n; i++ {
+			c := catalog()
+			var txs []PTx
+			perm := make([]int, len(c))
+			for j := range perm {
+				perm[j] = j
+			}
+			for j := len(perm) - 1; j > 0; j-- {
+				k := r.Intn(j + 1)
+				perm[j], perm[k] = perm[k], perm[j]
+			}
+			for _, j := range perm[:3+r.Intn(4)] {
+				txs = append(txs, c[j])
+			}
+			var ops []POp
+			pick := func() int { return r.Intn(len(txs)) }
+			for k, m := 0, 5+r.Intn(8); k < m; k++ {
+				switch r.Pick(35, 5, 35, 8, 17) {
+				case 0, 1:
+					o := POp{K: "add"}
+					if r.Chance(12) {
+						o.K = "addlocal"
+					}
+					for b, nb := 0, 1+r.Intn(3); b < nb; b++ {
+						o.T = append(o.T, pick())
+					}
+					ops = append(ops, o)
+				case 2:
+					if j := pick(); txs[j].RestBad != "inactive" {
+						ops = append(ops, op("proc", j))
+					}
+				case 3:
+					ops = append(ops, op("remove", pick()))
+				case 4:
+					o := POp{K: "reorg"}
+					for b, nb := 0, 1+r.Intn(2); b < nb; b++ {
+						j := pick()
+						dup := false
+						for _, q := range o.T {
+							dup = dup || q == j
+						}
+						if !dup {
+							o.T = append(o.T, j)
+						}
+					}
+					ops = append(ops, o)
+				}
+			}
+			// every transaction is finally "included in a block"
+			for j := range txs {
+				if txs[j].RestBad != "inactive" {
+					ops = append(ops, op("proc", j))
+				}
+			}
+			mkPool("random", txs, ops)
+		}
+	}
+
+	// ---- E4. the same cache for Quai transactions (tx hash -> sender), monitors only ----
+	{
+		k0, k1, k2 := keys[0], keys[1], newKey(r, true)
+		Ncurve, _ := crypto.VerifC03CurveOrder()
+		mk := func(nonce uint64, chain string, k ekey) *TxSpec {
+			t := &TxSpec{Chain: chain, Nonce: nonce, GasPrice: "10", Gas: 21000, To: k1.addr(), Value: "1"}
+			sign(t, k)
+			return t
+		}
+		universe := func() []QPTx {
+			base := mk(0, "9000", k0)
+			v, sv := bigOf(base.V), bigOf(base.S)
+			mut := func(label string, f func(t *TxSpec)) QPTx {
+				t := base.clone()
+				f(t)
+				return QPTx{Label: label, Tx: t, NotBy: k0.addr()}
+			}
+			return []QPTx{
+				{Label: "signed-funded", Tx: base, Signer: k0.addr(), Funded: true},
+				{Label: "signed-funded-next-nonce", Tx: mk(1, "9000", k0), Signer: k0.addr(), Funded: true},
+				{Label: "signed-unfunded", Tx: mk(0, "9000", k2), Signer: k2.addr()},
+				mut("malleable-twin", func(t *TxSpec) { t.S = new(big.Int).Sub(Ncurve, sv).String(); t.V = new(big.Int).Sub(one, v).String() }),
+				mut("v-flipped", func(t *TxSpec) { t.V = new(big.Int).Sub(one, v).String() }),
+				mut("value-changed-after-signing", func(t *TxSpec) { t.Value = "2" }),
+				mut("nonce-changed-after-signing", func(t *TxSpec) { t.Nonce = 2 }),
+				mut("r-zero", func(t *TxSpec) { t.R = "0" }),
+				mut("s-plus-one", func(t *TxSpec) { t.S = incStr(t.S, 1) }),
+				{Label: "signed-for-another-chain", Tx: mk(0, "1", k0), NotBy: k0.addr()},
+			}
+		}
+		op := func(k string, t ...int) POp { return POp{K: k, T: t} }
+		funded := [][]byte{k0.addr()}
+		u := universe()
+		for f := 2; f < len(u); f++ {
+			push(&Spec{Kind: "quaipool", Note: u[f].Label, QuaiPool: &QuaiPoolSpec{Funded: funded, Txs: universe(),
+				Ops: []POp{op("proc", f), op("add", f), op("proc", f), op("add", f), op("add", 0), op("proc", f), op("addlocal", f), op("add", 0, f, 1), op("proc", f), op("proc", 0), op("proc", 1)}}})
+		}
+		for i := 0; i < 4+n/3; i++ {
+			var ops []POp
+			for k, m := 0, 6+r.Intn(8); k < m; k++ {
+				if r.Chance(55) {
+					o := POp{K: "add"}
+					if r.Chance(15) {
+						o.K = "addlocal"
+					}
+					for b, nb := 0, 1+r.Intn(3); b < nb; b++ {
+						o.T = append(o.T, r.Intn(len(u)))
+					}
+					ops = append(ops, o)
+				} else {
+					ops = append(ops, op("proc", r.Intn(len(u))))
+				}
+			}
+			for j := range u {
+				ops = append(ops, op("proc", j))
+			}
+			push(&Spec{Kind: "quaipool", Note: "random", QuaiPool: &QuaiPoolSpec{Funded: funded, Txs: universe(), Ops: ops}})
+		}
+	}
+
 	// Qi signing bytes
 	for i := 0; i < 4+n/3; i++ {
 		k := 1 + r.Intn(3)
